@@ -80,6 +80,34 @@ let ks_history (ops : string list) : string =
       (s', ((if r then "ok" else "err") ^ ":" ^ locks) :: acc)) (ks_init, []) ops in
   String.concat " " (List.rev outs)
 
+(* the concrete KeyStore (StoreModel.cstep): ops are '|'-separated tokens *)
+let parse_cop (t : string) : cop =
+  let ni s = nat_of_int (int_of_string s) in
+  match String.split_on_char '|' t with
+  | ["create"; d; id; p; salt; iv] -> CCreate (n_of_string d, bytes_of_hex id, bytes_of_hex p, bytes_of_hex salt, bytes_of_hex iv)
+  | ["import"; f; p; np; id; salt; iv] -> CImport (parse_keyfile f, bytes_of_hex p, bytes_of_hex np, bytes_of_hex id, bytes_of_hex salt, bytes_of_hex iv)
+  | ["tun"; i; p; d] -> CTimedUnlock (ni i, bytes_of_hex p, n_of_string d)
+  | ["lock"; i] -> CLock (ni i)
+  | ["upd"; i; o; n; salt; iv] -> CUpdate (ni i, bytes_of_hex o, bytes_of_hex n, bytes_of_hex salt, bytes_of_hex iv)
+  | ["exp"; i; p; np; salt; iv] -> CExport (ni i, bytes_of_hex p, bytes_of_hex np, bytes_of_hex salt, bytes_of_hex iv)
+  | ["del"; i; p] -> CDelete (ni i, bytes_of_hex p)
+  | ["sig"; i] -> CSign (ni i)
+  | ["swp"; i; p] -> CSignWithPass (ni i, bytes_of_hex p)
+  | ["wait"; d] -> CWait (n_of_string d)
+  | ["put"; i; f] -> CPutFile (ni i, parse_keyfile f)
+  | _ -> failwith ("cop syntax " ^ t)
+
+let cks_history n p kt ct bt at (ops : string list) : string =
+  let kdf = kdf_of (parse_table kt) and ctr = aes_of (parse_table ct) and cbc = aes_of (parse_table bt)
+  and addr = addr_of (parse_table at) in
+  let (_, outs) = List.fold_left (fun (s, acc) t ->
+      let ((s', r), fo) = cstep kdf ctr cbc keccak256 addr (z_of_string n) (z_of_string p) s (parse_cop t) in
+      let locks = String.concat "" (List.map (fun a -> if clock_unlocked s'.cs_now a.c_lock then "u" else "l") s'.cs_accts) in
+      let rs = match r with ROk -> "ok" | RErr -> "err" | RPanic -> "panic" in
+      let fs = match fo with Some f -> render_keyfile f | None -> "-" in
+      (s', (rs ^ ";" ^ locks ^ ";" ^ fs) :: acc)) (cs_init, []) ops in
+  String.concat " " (List.rev outs)
+
 let handle (toks : string list) : string =
   match toks with
   | ["keccak"; h] -> hex_of_bytes (keccak256 (bytes_of_hex h))
@@ -98,6 +126,7 @@ let handle (toks : string list) : string =
              (z_of_string n) (z_of_string p) with
      | Ok f -> "ok " ^ render_keyfile f | Err -> "err" | Panic -> "panic")
   | "ks" :: ops -> ks_history ops
+  | "cks" :: n :: p :: kt :: ct :: bt :: at :: ops -> cks_history n p kt ct bt at ops
   | _ -> "driver-error unknown-command"
 
 let () = self_test b2n; serve handle
